@@ -23,16 +23,18 @@ COMMON = ["-D_GNU_SOURCE", "-DHAVE_CONFIG_H", "-D" + GUARD, "-g", "-fno-omit-fra
 
 ASAN = ["-fsanitize=address", "-fsanitize=bounds", "-fno-sanitize-recover=all",
         "-fno-common"]
-TSAN = ["-fsanitize=thread", "--param", "tsan-distinguish-volatile=1"]
+TSAN = ["-fsanitize=thread"]
+TSANV = TSAN + ["--param", "tsan-distinguish-volatile=1"]   # ring files: volatile accesses get their own ABI
 
 FLAVOURS = {
     # name: (cflags for libqb objects, per-file override dict, link flags)
     "asan": (["-O1"] + ASAN, {}, ASAN),
-    "tsan": (["-O1"] + TSAN, {}, ["-fsanitize=thread"]),
+    "tsan": (["-O1"] + TSAN, {"ringbuffer": ["-O1"] + TSANV, "ringbuffer_helper": ["-O1"] + TSANV},
+             ["-fsanitize=thread"]),
     "plain": (["-O2"], {}, []),
     # controlled scheduler: only the ring files carry TSan instrumentation
     # (as yield points); linked WITHOUT libtsan against harness/vpsched.c
-    "sched": (["-O1"], {"ringbuffer": ["-O1"] + TSAN, "ringbuffer_helper": ["-O1"] + TSAN}, []),
+    "sched": (["-O1"], {"ringbuffer": ["-O1"] + TSANV, "ringbuffer_helper": ["-O1"] + TSANV}, []),
 }
 
 
